@@ -5,7 +5,13 @@ import LaunchpadModel.Lemmas.Airdrop
 
 Every theorem quantifies over an arbitrary `Crypto` (Keccak, `secp256k1_recover_pubkey`, `secp256k1_verify`),
 arbitrary states and arbitrary byte strings. History theorems are inductions over `List Op`
-(claims by anybody with any arguments, coins arriving anywhere, any administration of the collection whitelist).
+(claims by anybody with any arguments, coins arriving anywhere, any administration of the collection whitelist, the
+minter pointing to any other whitelist, time passing, any other message to the contract).
+
+Honesty notes. `C16_failed_no_effect` and `C16_other_messages_no_effect` restate the shape of the model (atomic `step'`,
+no message besides `ClaimAirdrop`); the corresponding clauses are carried by the harness monitors on the real code
+(`failed-claim-effect`, `exec_raw/*`), not by these proofs. The per-ADDRESS reading of the limit clause is false for the
+code as it is: see `C16_limit_per_address_partial` / `_spellings` / `_counterexample`.
 
 Unforgeability of ECDSA is not (and cannot be) proved; what "a signature cannot be replayed" rests on is made
 explicit: a replay that succeeds *is* one of three concrete collisions (`ReplayCollision`,
@@ -400,7 +406,9 @@ theorem C16_claim_effects (C : Crypto) (s s' : State) (sender eth sig : Bytes)
                 · intro e he
                   simp [bump, he]
 
-/-- "failed claims pay nothing and record nothing": the transaction is atomic. -/
+/-- "failed claims pay nothing and record nothing": the transaction is atomic. This RESTATES the definition of `step'`
+(failed op ⇒ old state); that the real transaction is atomic is what the monitor `failed-claim-effect` checks on the code
+(whole bank table, every claim counter, every member of both collection whitelists: before = after). -/
 theorem C16_failed_no_effect (C : Crypto) (s : State) (op : Op) (e : Err) (h : step C s op = .error e) :
     step' C s op = s := by
   simp [step', h]
@@ -966,9 +974,11 @@ example : (match claim toy { s0 with eligible := [eth.dropLast] } alice eth.drop
     | .ok _ => true | .error _ => false) = false := by decide
 /-- hypotheses of `C16_text_injective` / `C16_instantiate_post` are satisfiable -/
 example : containsPat WALLET s0.template = true := by decide
-example : (match instantiate { bal := fun x => if x = alice then 200000000 else 0, cwl := none } me alice
-      [⟨NATIVE, 150000000⟩] { template := WALLET, amount := 10000000, addresses := [eth], perAddressLimit := 1 } with
-    | .ok s => (s.env.bal me, s.env.bal alice) | .error _ => (0, 0)) = (50000000, 50000000) := by decide
+example : (match instantiate
+      { bal := fun x => if x = alice then Gen.sg_eth_airdrop_INSTANTIATION_FEE + 60000000 else 0, cwl := none } me alice
+      [⟨NATIVE, Gen.sg_eth_airdrop_INSTANTIATION_FEE + 50000000⟩]
+      { template := WALLET, amount := Gen.sg_eth_airdrop_MIN_AIRDROP, addresses := [eth], perAddressLimit := 1 } with
+    | .ok s => (s.env.bal me, s.env.bal alice) | .error _ => (0, 0)) = (50000000, 10000000) := by decide
 end Example
 
 /-! ### the literal per-address clause fails: one key, two spellings on the list, `2 × limit` claims -/
